@@ -826,7 +826,7 @@ impl Board {
         let mut out: Vec<(u64, u64)> = self
             .position_history
             .iter()
-            .map(|k| (k.verif_u64(), 1))
+            .map(|(k, c)| (k.verif_u64(), u64::from(*c)))
             .collect();
         out.sort_unstable();
         out
